@@ -5,7 +5,7 @@
 //! The target is notation the compiler accepts WITHOUT warnings on the unchanged tree;
 //! scenarios measure the yield and report it as a reach probe.
 
-use crate::rng::Rng;
+use crate::rng::{mix, Rng};
 use serde::{Deserialize, Serialize};
 use std::collections::{BTreeMap, BTreeSet};
 
@@ -590,8 +590,19 @@ impl<'a> G<'a> {
                 if self.rng.chance(1, 2) {
                     s.push(' ');
                     s.push_str(&self.size_constraint());
-                } else if self.rng.chance(1, 4) && (s == "IA5String" || s == "PrintableString" || s == "VisibleString") {
-                    s.push_str(" (FROM (\"a\"..\"z\"))");
+                } else if self.rng.chance(1, 4) {
+                    // permitted alphabets, for the multi-octet string types with characters beyond
+                    // ASCII (BMPString) and beyond the basic plane (UniversalString, UTF8String)
+                    match s.as_str() {
+                        "IA5String" | "PrintableString" | "VisibleString" => s.push_str(" (FROM (\"a\"..\"z\"))"),
+                        "BMPString" => s.push_str(" (FROM (\"a\"..\"f\" | \"\u{e4}\"))"),
+                        // (a character beyond the basic plane in a UniversalString alphabet makes the unchanged
+                        // compiler print its whole 900 KB character table into a warning; far too heavy for
+                        // a workload that runs thousands of times, so the alphabet stays inside the plane)
+                        "UniversalString" => s.push_str(" (FROM (\"a\"..\"z\" | \"\u{20ac}\"))"),
+                        "UTF8String" => s.push_str(" (FROM (\"\u{1f600}\" | \"x\"))"),
+                        _ => {}
+                    }
                 }
                 s
             }
@@ -836,6 +847,9 @@ impl<'a> G<'a> {
             match self.rng.below(5) {
                 0 => out.push("-- a line comment ::= with tokens { } ( ) inside".to_string()),
                 1 => out.push("-- paired comment -- ".to_string()),
+                // (half of them with the white space a comment may hold besides blanks: vertical tab,
+                // form feed, tab, no-break space, also directly behind the line break)
+                2 if mix(self.rng.clone().next_u64(), 0xb10c) % 2 == 0 => out.push("/* block comment\n\u{b}with a vertical tab,\n\u{c}a form feed,\n\ta tab and\u{a0}a no-break space\n\u{b}\u{b} over\n\n\u{b}six lines */".to_string()),
                 2 => out.push("/* block comment\n   over two lines */".to_string()),
                 // a closed comment in front of the assignment, on the assignment's own line
                 3 if k + 1 == nlines => out.push("-- lead --  ".to_string()),
@@ -1181,7 +1195,16 @@ pub fn generate(rng: &mut Rng, cfg: &GenCfg) -> ModuleSet {
                 // tagging default decides what they mean); importers inherit the members with
                 // COMPONENTS OF and instantiate the template under THEIR default
                 let st = p.stem.trim_end_matches('-').to_string();
-                assigns.push(Assign { name: format!("{st}TagBase"), kind: AKind::Type, text: format!("{st}TagBase ::= SEQUENCE {{ first [0] INTEGER, second [1] BOOLEAN OPTIONAL, third [APPLICATION {}] UTF8String }}", 1 + g.rng.below(30)), refs: vec![], comment: String::new() });
+                // half of the time one member is of a type this module IMPORTS itself: whoever inherits
+                // the members with COMPONENTS OF gets a member whose type lives in a third module
+                let (fourth, base_refs) = if !ctx.imported_types.is_empty() && mix(g.rng.clone().next_u64(), 0x4fa) % 2 == 0 {
+                    let (from, t) = ctx.imported_types[(mix(g.rng.clone().next_u64(), 0x4fb) % ctx.imported_types.len() as u64) as usize].clone();
+                    ctx.used_imports.entry(from).or_default().insert(t.name.clone());
+                    (format!(", fourth {}", t.name), vec![t.name.clone()])
+                } else {
+                    (String::new(), vec![])
+                };
+                assigns.push(Assign { name: format!("{st}TagBase"), kind: AKind::Type, text: format!("{st}TagBase ::= SEQUENCE {{ first [0] INTEGER, second [1] BOOLEAN OPTIONAL, third [APPLICATION {}] UTF8String{fourth} }}", 1 + g.rng.below(30)), refs: base_refs, comment: String::new() });
                 assigns.push(Assign { name: format!("{st}TagWrap"), kind: AKind::Param, text: format!("{st}TagWrap {{Payload}} ::= SEQUENCE {{ payload [0] Payload, serial [1] INTEGER (0..65535) }}"), refs: vec![], comment: String::new() });
             }
             if g.rng.chance(1, 3) {
